@@ -19,16 +19,16 @@ PLANNER_INVS = {
     "C20": ["InvC04", "InvNames"],
 }
 TRACE_INVS = {
-    "C01": ["InvC01s", "InvC01x"],
-    "C02": ["InvC02s", "InvC02x"],
-    "C03": ["InvC03s", "InvC03x"],
+    "C01": ["InvStruct", "InvC01s", "InvC01x"],
+    "C02": ["InvStruct", "InvC02s", "InvC02x"],
+    "C03": ["InvStruct", "InvC03s", "InvC03x"],
     "C04": ["InvStruct", "InvC04s", "InvC04x"],
-    "C05": ["InvC05"],
-    "C07": ["InvC07", "InvC01s", "InvC01x", "InvC02x", "InvC03x", "InvC04x"],
+    "C05": ["InvStruct", "InvC05"],
+    "C07": ["InvStruct", "InvC07", "InvC01s", "InvC01x", "InvC02x", "InvC03x", "InvC04x"],
     "C10": ["InvC10"],
-    "C12": ["InvC12s", "InvC12", "InvC04x"],
+    "C12": ["InvStruct", "InvC12s", "InvC12", "InvC04x"],
     "C13": ["InvC13", "InvStruct"],
-    "C14": ["InvC14", "InvC04x"],
+    "C14": ["InvStruct", "InvC14", "InvC04x"],
     "C15": ["InvC15", "InvC04x", "InvC12"],
     "C18": ["InvC18", "InvCap"],
     "C19": ["InvC19"],
@@ -293,6 +293,11 @@ KF1_PROGS = [
     {"prog": {"ops": [add(r=[1], name="o1"), add(r=[2], name="o2"),
                       batch([tl(w=[1]), add(w=[3], name="i1"), tl(r=[3])], n=2, name="b"), tl(r=[1])]},
      "modes": ["disp", "disp"], "gated": True},
+    # MultiDispatcher over a builder with thread-local systems; builders holding only thread-local / unnamed systems
+    {"prog": {"ops": [add(r=[4], name="o"), batch([add(w=[5], name="i"), tl(), tl(r=[5])], n=2, multi=True, name="m")]},
+     "modes": ["disp", "seq"], "gated": True},
+    {"prog": {"ops": [add(r=[4], name="o"), batch([tl(), tl()], n=1, name="onlytl"), batch([add(w=[6]), tl()], n=2, name="unnamedtl")]},
+     "modes": ["disp", "disp"], "gated": True},
 ]
 
 
@@ -365,6 +370,9 @@ def check_C02(ctx):
 
 def check_C03(ctx):
     planner_family(ctx, "C03", qdeps=1)
+    # very many stages (barrier index far beyond 255) and barriers followed by rejected calls
+    planner_i2s(ctx, TRACE_INVS["C03"], count=30 if ctx.quick() else 300, nmin=4, nmax=30, nres=6,
+                extra=["--chain", 2 if ctx.quick() else 10, "--pill", 0.12, "--pbarrier", 0.25], seed_off=7)
     exec_family(ctx, "C03", extra=["--pbarrier", 0.2], mc=("deps",), mc_thorough=("flat2",))
     exec_s2i(ctx, "C03", maxforce=1500 if ctx.quick() else 17000)
     async_stage(ctx, ["InvC03x"], 40 if ctx.quick() else 400, extra=["--ppanic", 0.3, "--pbarrier", 0.2])
@@ -551,7 +559,7 @@ def check_C18(ctx):
     if ctx.quick():
         r = planner_mc(ctx, planner_consts(3, "{1,2}", "{1,3}", 1), PLANNER_INVS["C18"], label="q")
         planner_s2i(ctx, r["replay"], invs, variants=1)
-        planner_i2s(ctx, invs, count=60, nmin=4, nmax=40, nres=6, extra=["--pill", 0.2])
+        planner_i2s(ctx, invs, count=60, nmin=4, nmax=40, nres=6, extra=["--pill", 0.2, "--pbatch", 0.2])
         planner_i2s(ctx, invs, count=6, nmin=150, nmax=400, nres=10, extra=["--pill", 0.03], seed_off=1)
         # funnel: many conflicting systems with all running-time hints over very few resources
         planner_i2s(ctx, invs, count=30, nmin=20, nmax=80, nres=2, extra=["--pdep", 0.05, "--funnel", 300], seed_off=2)
